@@ -385,6 +385,76 @@ def k_bag(run, case, rng, work):
               "timestamp" % float(worst * 10**9), key="bag:stamps-header")
 
 
+def k_bag_cli(run, case, rng, work):
+    """
+    Bag to bag through the command line (evo_traj bag in.bag <topics> [--ref T] --save_as_bag): every
+    exported topic holds the poses, the frame id and (to the nanosecond) the stamps of its source.
+    """
+    import glob
+    from rosbags.rosbag1 import Reader, Writer
+    from evo.tools import file_interface as fi
+    from vmon import cli
+    k = int(rng.integers(1, 5))
+    topics = ["/traj", "/groundtruth", "/cam0/pose", "/odom"][:k]
+    frames = [["map", "/world", "/vicon/world", "", "robot_1/odom", "odom_ü"][rng.integers(6)] for _ in topics]
+    src = os.path.join(work, "in.bag")
+    given = {}
+    w = Writer(src)
+    w.open()
+    try:
+        for topic, fr in zip(topics, frames):
+            tr = make_traj(rng, int(rng.integers(1, 40)), ["epoch", "ordinary", "random17"][rng.integers(3)],
+                           "xyzq" if rng.random() < .5 else "se3", True)
+            fi.write_bag_trajectory(w, tr, topic, frame_id=fr)
+    finally:
+        w.close()
+    r = Reader(src)
+    r.open()
+    try:
+        for topic, fr in zip(topics, frames):
+            # (what evo reads from the source bag is the input of the export)
+            back = fi.read_bag_trajectory(r, topic)
+            given[topic] = (gen.read_views(back), back.meta.get("frame_id"))
+            if back.meta.get("frame_id") != fr:
+                raise core.Inconclusive("source bag not readable as written")
+    finally:
+        r.close()
+    out = os.path.join(work, "out")
+    os.makedirs(out)
+    use_ref = k >= 2 and rng.random() < .5
+    argv = ["bag", src] + (topics[1:] + ["--ref", topics[0]] if use_ref else topics) + ["--save_as_bag", "--no_warnings"]
+    res = cli.run_cli("traj", argv, cwd=out)
+    run.seen(case, core.digest([v[0]["p"] for v in given.values()], frames, use_ref), cls=["ros1 bag through evo_traj --save_as_bag",
+                                                                                       "bag topics: %d" % k],
+             sample={"topics": topics, "frame_ids": frames, "ref": use_ref, "exit": res.exit})
+    bags = glob.glob(os.path.join(out, "*.bag"))
+    if not run.check(res.exc is None and res.exit == 0 and len(bags) == 1, "evo_traj exports the bag", case,
+                     "evo_traj %s: exit %r exception %r, %d bag(s) written" % (argv[2:], res.exit, res.exc, len(bags)),
+                     key="bagcli:export-failed"):
+        return
+    r = Reader(bags[0])
+    r.open()
+    try:
+        for topic in topics:
+            want, fr = given[topic]
+            try:
+                back = fi.read_bag_trajectory(r, topic)
+            except Exception as e:
+                run.violation("bagcli:topic-missing", "exported bag has no readable topic %s: %r" % (topic, e), case)
+                continue
+            b = gen.read_views(back)
+            run.check(b["p"].shape == want["p"].shape and same_bits(b["p"], want["p"]) and same_bits(b["q"], want["q"]),
+                      "bag export through evo_traj: poses exact", case, "topic %s: poses changed" % topic, key="bagcli:poses")
+            run.check(back.meta.get("frame_id") == fr, "bag export through evo_traj: frame id preserved", case,
+                      "topic %s: frame id %r -> %r" % (topic, fr, back.meta.get("frame_id")), key="bagcli:frame")
+            tol = 1e-9 + 2 * np.spacing(np.abs(want["t"]))
+            run.check(b["t"].shape == want["t"].shape and bool(np.all(np.abs(b["t"] - want["t"]) <= tol)),
+                      "bag export through evo_traj: stamps within 1 ns", case, "topic %s: stamps changed" % topic,
+                      key="bagcli:stamps")
+    finally:
+        r.close()
+
+
 def with_work(fn):
     def k(run, case):
         import shutil
@@ -399,7 +469,7 @@ def with_work(fn):
 
 
 KINDS = {"text": with_work(k_text), "result": with_work(k_result), "df": with_work(k_df),
-         "bag": with_work(k_bag)}
+         "bag": with_work(k_bag), "bag_cli": with_work(k_bag_cli)}
 
 
 def main(run):
@@ -417,7 +487,9 @@ def main(run):
         KINDS["df"](run, run.case("df", i))
     for i in run.mine({"quick": 80, "thorough": 1500}[run.tier]):
         KINDS["bag"](run, run.case("bag", i))
-    run.need("tum: timestamps identical float64", "tum: positions identical float64",
+    for i in run.mine({"quick": 32, "thorough": 600}[run.tier]):
+        KINDS["bag_cli"](run, run.case("bag_cli", i))
+    run.need("bag export through evo_traj: frame id preserved", "tum: timestamps identical float64", "tum: positions identical float64",
              "tum: quaternions identical float64", "kitti: matrix entries identical float64",
              "result: statistics identical float64", "result: arrays identical float64",
              "result: embedded trajectory identical float64", "result: info identical (unicode)",
